@@ -101,6 +101,9 @@ def run(ctx):
         res.check(re.match(r"^wrap\(.*collect\(find_words_ascii_space\(", e) is not None, "R20.1", "styled-wrap-words", c.where(), "new.extend(wrapper.wrap(find_words(line)))",
                   "StyledStr::wrap extends the output with %s" % e[:120])
     require(fx, res, "R20.1", "styled-wrap-words", sw, r"Extend(<[^>]*>)?>?::extend$", len(exs), 1, "StyledStr::wrap no longer appends the wrapped words to its output", local_callee=False)
+    itx = sw.calls_to(r"StyledStr::iter_text$")
+    res.check(bool(itx) and not sw.must_pass([c.bb for c in itx]), "R20.1", "styled-wrap-no-shortcut", sw.where(), "every path through StyledStr::wrap walks the text runs",
+              "StyledStr::wrap can return without walking its text (an early `already fits` exit): multi-line text is then never wrapped, produced lines can exceed the width")
     res.check(not sw.calls_to(r"String::(remove|truncate|clear|drain|pop|retain|replace_range)$"), "R20.1", "styled-wrap-no-removal", sw.where(), "no destructive String op", "StyledStr::wrap removes text from its output buffer")
 
     # ---- R20.5 break placement and width accounting (necessary for the width bound / for breaking only between words)
